@@ -22,15 +22,49 @@ def _tag_floats(j):
     return j
 
 
-def to_driver_program(program: dict, real_obs: list[dict] | None = None) -> dict:
+MODEL_OPS = {
+    "add", "sub", "mul", "truediv", "floordiv", "mod", "neg", "pos", "abs", "floor", "ceil", "equal", "not_equal", "less_than", "less_equal",
+    "greater_than", "greater_equal", "bool_and", "bool_or", "bool_xor", "bool_invert", "is_null", "is_not_null", "fill_null", "is_in", "coalesce",
+    "horizontal_max", "horizontal_min", "horizontal_sum", "horizontal_any", "horizontal_all", "clip", "str_len", "str_upper", "str_lower", "str_strip",
+    "str_starts_with", "str_ends_with", "str_contains", "str_replace_all", "str_slice",
+    "sum", "min", "max", "mean", "count", "count_star", "any", "all", "row_number", "rank", "dense_rank", "shift", "cum_sum",
+    "descending", "ascending", "nulls_first", "nulls_last",
+}
+
+
+def spec_supported(program: dict) -> bool:
+    from .triggers import fn_ops
+
+    for st in program["stmts"]:
+        if not fn_ops(st) <= MODEL_OPS:
+            return False
+        if st["op"] in ("collect",):
+            return False
+    return True
+
+
+def _tag_cell(v):
+    if isinstance(v, float):
+        return {"float": repr(v)}
+    if isinstance(v, dict):
+        return None
+    return v
+
+
+def to_driver_program(program: dict, real_obs: list[dict] | None = None, with_data: bool = False) -> dict:
     p = copy.deepcopy(program)
     by_id = {o["id"]: o for o in (real_obs or [])}
     for st in p["stmts"]:
         if st["op"] == "join" and st["id"] in by_id and "set_order" in by_id[st["id"]]:
             st["set_order"] = by_id[st["id"]]["set_order"]
     p["stmts"] = [_tag_floats(s) for s in p["stmts"]]
-    # table values are not needed by the front-end model
-    p["tables"] = [dict(name=t["name"], cols=[dict(name=c["name"], dtype=c["dtype"]) for c in t["cols"]]) for t in p["tables"]]
+    if with_data:
+        p["tables"] = [dict(name=t["name"], cols=[dict(name=c["name"], dtype=c["dtype"], vals=[_tag_cell(x) for x in c["vals"]]) for c in t["cols"]])
+                       for t in p["tables"]]
+        p["spec"] = True
+    else:
+        # table values are not needed by the front-end model
+        p["tables"] = [dict(name=t["name"], cols=[dict(name=c["name"], dtype=c["dtype"]) for c in t["cols"]]) for t in p["tables"]]
     return p
 
 
@@ -70,9 +104,36 @@ def compare_front(program: dict, backend: str, real_obs: list[dict], model_obs: 
     return diffs
 
 
-def model_run(programs: list[tuple[dict, str, list[dict]]]) -> list[list[dict]]:
+def decode_cell(s: str):
+    import struct
+
+    if s == "null":
+        return None
+    if s == "true":
+        return True
+    if s == "false":
+        return False
+    if s.startswith("s:"):
+        return s[2:]
+    if s.startswith("f:"):
+        return struct.unpack("<d", struct.pack("<Q", int(s[2:])))[0]
+    return int(s)
+
+
+def spec_frames(model_obs: list[dict], key: str = "spec") -> dict:
+    """export statement id -> frame computed by the Lean reference semantics (key="spec") or by the Lean
+    model of the SQL compiler + relational semantics (key="sql"; a string = compile error of the model)"""
+    out = {}
+    for o in model_obs or []:
+        if o.get("op") == "export" and o.get(key) is not None:
+            f = o[key]
+            out[o["id"]] = f if isinstance(f, str) else dict(names=f["names"], rows=[[decode_cell(c) for c in r] for r in f["rows"]])
+    return out
+
+
+def model_run(programs: list[tuple[dict, str, list[dict]]], with_data: bool = False) -> list[list[dict]]:
     """programs: (program, backend, real observations) → model observation streams"""
-    reqs = [dict(cmd="program", backend=b, program=to_driver_program(p, ro)) for p, b, ro in programs]
+    reqs = [dict(cmd="program", backend=b, program=to_driver_program(p, ro, with_data=with_data)) for p, b, ro in programs]
     outs = common.run_driver(reqs)
     res = []
     for o in outs:
